@@ -2,7 +2,7 @@
 (src/naive/internals.rs, src/naive/date/mod.rs, src/naive/isoweek.rs) -> coq/Gen/DateTables.v."""
 import re
 
-from rustconst import Evaluator, TranslateError, array_elems, find_items, fn_body, strip_comments
+from rustconst import ATOM, Evaluator, TranslateError, array_elems, atom_val, const_env, find_items, fn_body, strip_comments
 from translate import HEADER, defn, read, zlist
 
 
@@ -48,26 +48,30 @@ def gen_date_tables():
     out += zlist('MDL_TO_OL_list', table(it, 'MDL_TO_OL', env['I_MAX_MDL'] + 1))
     out += zlist('OL_TO_MDL_list', table(it, 'OL_TO_MDL', env['I_MAX_OL'] + 1))
 
-    # nisoweeks bit mask and the constants of ndays / isoweek_delta
+    # nisoweeks bit mask and the constants of ndays / isoweek_delta (literals in any notation or
+    # named constants of the file)
+    A = '(' + ATOM + ')'
+    ienv = const_env(isrc)
+    iv = lambda t: atom_val(t, ienv)
     body = fn_body(isrc, 'nisoweeks')
-    m = re.search(r'(\d+)\s*\+\s*\(\((0b[01_]+)\s*>>\s*flags as usize\)\s*&\s*1\)', body)
+    m = re.search(A + r'\s*\+\s*\(\(' + A + r'\s*>>\s*flags as usize\)\s*&\s*1\)', body)
     if not m:
         raise TranslateError('nisoweeks: expression not recognised')
-    out += defn('NISOWEEKS_BASE', int(m.group(1)))
-    out += defn('NISOWEEKS_MASK', int(m.group(2).replace('_', ''), 0))
+    out += defn('NISOWEEKS_BASE', iv(m.group(1)))
+    out += defn('NISOWEEKS_MASK', iv(m.group(2)))
     body = fn_body(isrc, 'ndays')
-    m = re.search(r'(\d+)\s*-\s*\(flags\s*>>\s*(\d+)\)', body)
+    m = re.search(A + r'\s*-\s*\(flags\s*>>\s*' + A + r'\)', body)
     if not m:
         raise TranslateError('ndays: expression not recognised')
-    out += defn('NDAYS_BASE', int(m.group(1)))
-    out += defn('NDAYS_SHIFT', int(m.group(2)))
+    out += defn('NDAYS_BASE', iv(m.group(1)))
+    out += defn('NDAYS_SHIFT', iv(m.group(2)))
     body = fn_body(isrc, 'isoweek_delta')
-    m = re.search(r'flags\s*&\s*(0b[01_]+)\)\s*as u32;\s*if delta <\s*(\d+)\s*\{\s*delta \+=\s*(\d+);', body)
+    m = re.search(r'flags\s*&\s*' + A + r'\)\s*as u32;\s*if delta <\s*' + A + r'\s*\{\s*delta \+=\s*' + A + ';', body)
     if not m:
         raise TranslateError('isoweek_delta: expression not recognised')
-    out += defn('ISOWEEK_DELTA_MASK', int(m.group(1).replace('_', ''), 0))
-    out += defn('ISOWEEK_DELTA_LT', int(m.group(2)))
-    out += defn('ISOWEEK_DELTA_ADD', int(m.group(3)))
+    out += defn('ISOWEEK_DELTA_MASK', iv(m.group(1)))
+    out += defn('ISOWEEK_DELTA_LT', iv(m.group(2)))
+    out += defn('ISOWEEK_DELTA_ADD', iv(m.group(3)))
 
     # --- date/mod.rs
     denv = {}
@@ -90,14 +94,16 @@ def gen_date_tables():
         if not m:
             raise TranslateError('date/mod.rs: unexpected form of NaiveDate::%s' % n)
         out += defn('D_%s_yof' % n, Evaluator(denv).eval(m.group(1)))
-    # literal constants inside functions
+    # literal constants inside functions (any notation, or named constants of the file)
+    fenv = const_env(dsrc, denv)
+    dv = lambda t: atom_val(t, fenv)
     body = fn_body(dsrc, 'from_num_days_from_ce_opt')
-    m = re.search(r'checked_add\((\d+)\)', body)
-    m2 = re.findall(r'(?:div_euclid|rem_euclid)\(([\d_]+)\)', body)
-    if not m or len(m2) != 2 or m2[0] != m2[1]:
+    m = re.search(r'checked_add\(' + A + r'\)', body)
+    m2 = re.findall(r'(?:div_euclid|rem_euclid)\(' + A + r'\)', body)
+    if not m or len(m2) != 2 or dv(m2[0]) != dv(m2[1]):
         raise TranslateError('from_num_days_from_ce_opt: constants not recognised')
-    out += defn('D_CE_SHIFT', int(m.group(1)))
-    out += defn('D_DAYS_PER_400Y', int(m2[0].replace('_', '')))
+    out += defn('D_CE_SHIFT', dv(m.group(1)))
+    out += defn('D_DAYS_PER_400Y', dv(m2[0]))
     body = fn_body(dsrc, 'cycle_to_yo')
     ks = set(re.findall(r'\b(36\d)\b', body))
     if ks != {'365'}:
@@ -111,11 +117,11 @@ def gen_date_tables():
     out += defn('D_YEAR_SHIFT', int(m2.group(1)))
     out += defn('D_ORDINAL_SHIFT', int(m2.group(2)))
     body = fn_body(dsrc, 'num_days_from_ce')
-    m = re.search(r'\(-year\) / (\d+);\s*year \+= excess \* (\d+);\s*ndays -= excess \* ([\d_]+);\s*\}\s*let div_100 = year / (\d+);\s*ndays \+= \(\(year \* (\d+)\) >> (\d+)\) - div_100 \+ \(div_100 >> (\d+)\);', body)
+    m = re.search(r'\(-year\) / ' + A + r';\s*year \+= excess \* ' + A + r';\s*ndays -= excess \* ' + A + r';\s*\}\s*let div_100 = year / ' + A + r';\s*ndays \+= \(\(year \* ' + A + r'\) >> ' + A + r'\) - div_100 \+ \(div_100 >> ' + A + r'\);', body)
     if not m:
         raise TranslateError('num_days_from_ce: body not recognised')
     for k, n in enumerate(('NDCE_A', 'NDCE_B', 'NDCE_C', 'NDCE_D', 'NDCE_E', 'NDCE_F', 'NDCE_G')):
-        out += defn(n, int(m.group(k + 1).replace('_', '')))
+        out += defn(n, dv(m.group(k + 1)))
     body = fn_body(dsrc, 'diff_months')
     m = re.search(r'let days = \[(.*?)\];', body, re.S)
     m2 = re.search(r'if flags\.ndays\(\) == (\d+) \{ (\d+) \} else \{ (\d+) \}', body)
@@ -136,7 +142,7 @@ def gen_date_tables():
     body2 = fn_body(wsrc, 'week')
     m2 = re.search(r'>> (\d+)\) & (0x[0-9a-f]+)', body2)
     body3 = fn_body(wsrc, 'year')
-    m3 = re.search(r'self\.ywf >> (\d+)', body3)
+    m3 = re.search(r'self\.[a-z_][a-z0-9_]* >> (\d+)', body3)
     if not m or not m2 or not m3:
         raise TranslateError('isoweek.rs: packing constants not recognised')
     out += defn('IW_YEAR_SHIFT', int(m.group(1)))
